@@ -103,7 +103,7 @@ var rfcConsts = []struct {
 var headerMinSize = map[string]int{"Ethernet": 14, "ARP": 28, "IPv4": 20, "IPv6": 40, "IPv6Fragment": 8, "ICMPv4": 4, "ICMPv6": 4, "UDP": 8, "TCP": 20}
 
 func propC15(c *Ctx) {
-	c.Explanation = "Decides completely, for all field values, the fixed-offset part of the header codecs by bit-provenance evaluation (each bit of a value is a constant, a bit of the buffer or a bit of a parameter; no execution): (B1) RFC layout - every integer getter returns exactly the buffer bits the RFC diagram assigns to the field (independent table transcribed from RFC 791/8200/792/4443/768/793/826 and IEEE 802.3), every setter and Encode writes exactly those bits from exactly the corresponding parameter bits, address accessors slice exactly the RFC byte ranges; round trip follows (getter o encoder is the identity on every field bit; the bits an encoder drops are exactly the granularity bits: IHL and DataOffset low 2 bits, fragment offset low 3 bits); Encode never writes a bit twice and never beyond the header's minimum size; version nibbles are the RFC constants; (B2) option codecs - each Encode*Option writes kind, length and big-endian value and returns its length, every (kind,length) pair an encoder produces is accepted by both parsers with the same length; (B3) the option parsers and encoders never index outside their slice arguments (interval + linear-fact analysis, shared with C07) and the parser loops always advance; (B4) the Internet checksum's carry handling - every 32->16-bit narrowing in checksum.go is either lossless, the extraction of the two halves fed to ChecksumCombine, or an end-around-carry fold that is complete for the whole range of its operand (so no carry is dropped); the accumulator is 32 bits wide; the odd trailing byte is added as the high byte. (B4w) every 16-bit word handed to Checksum (initial value) or ChecksumCombine anywhere in the module, incl. the partial-checksum helpers, is free of 16-bit arithmetic that can wrap and of lossy narrowing (interval evaluation of the operands). NOT decided: that Checksum equals the RFC 1071 sum for every buffer (needs induction over the loop), accumulator overflow for buffers beyond 64 KiB, DNS variable-length parsing."
+	c.Explanation = "Decides completely, for all field values, the fixed-offset part of the header codecs by bit-provenance evaluation (each bit of a value is a constant, a bit of the buffer or a bit of a parameter; no execution): (B1) RFC layout - every integer getter returns exactly the buffer bits the RFC diagram assigns to the field (independent table transcribed from RFC 791/8200/792/4443/768/793/826 and IEEE 802.3), every setter and Encode writes exactly those bits from exactly the corresponding parameter bits, address accessors slice exactly the RFC byte ranges; round trip follows (getter o encoder is the identity on every field bit; the bits an encoder drops are exactly the granularity bits: IHL and DataOffset low 2 bits, fragment offset low 3 bits); Encode never writes a bit twice and never beyond the header's minimum size; version nibbles are the RFC constants; (B2) option codecs - each Encode*Option writes kind, length and big-endian value and returns its length, every (kind,length) pair an encoder produces is accepted by both parsers with the same length; (B3) the option parsers and encoders never index outside their slice arguments (interval + linear-fact analysis, shared with C07) and the parser loops always advance; (B4) the Internet checksum's carry handling - every 32->16-bit narrowing in checksum.go is either lossless, the extraction of the two halves fed to ChecksumCombine, or an end-around-carry fold that is complete for the whole range of its operand (so no carry is dropped); the accumulator is 32 bits wide; the odd trailing byte is added as the high byte. (B4w) every 16-bit word handed to Checksum (initial value) or ChecksumCombine anywhere in the module, incl. the partial-checksum helpers, is free of 16-bit arithmetic that can wrap and of lossy narrowing (interval evaluation of the operands). B2 also requires every encoder's room test and written length to be derivable from its body (SACK block count within [1,4] at the stores). NOT decided: that Checksum equals the RFC 1071 sum for every buffer (needs induction over the loop), accumulator overflow for buffers beyond 64 KiB, DNS variable-length parsing."
 	c.Assumptions = []string{"encoding/binary.BigEndian semantics", "RFC layout table in prop_c15.go transcribed by hand from the RFCs"}
 	bp := &bitprov{p: c.P}
 	b1 := c.Rule("B1", "K9 bitprov", "accessor/encoder bit maps == RFC layout", 120)
@@ -300,6 +300,20 @@ func (c *Ctx) checkSliceWrites(rule, key, pos string, r *bpResult, param string,
 
 func propC15Options(c *Ctx, bp *bitprov) {
 	b2 := c.Rule("B2", "K9 table agreement", "option encoders and parsers agree on kind/length/value layout", 12)
+	// every encoder's own room test and returned length are derivable from its
+	// body (shared with C06/E5): a fixed-size encoder returns 0 unless the buffer
+	// has room for all of it, and the SACK encoder writes between 1 and 4 blocks
+	// - never a negative or zero count past its "no room" return - so the bytes
+	// it stores lie inside the buffer it was given, whatever its length.
+	{
+		an := NewAbsint(c.P)
+		for _, n := range []string{"header.EncodeMSSOption", "header.EncodeWSOption", "header.EncodeTSOption", "header.EncodeSACKPermittedOption", "header.EncodeSACKBlocks", "header.EncodeNOP"} {
+			if fn := c.Fn(b2, n); fn != nil {
+				es, err := encoderSummary(c, an, fn)
+				c.Check(err == "", b2, n+"/room-and-length", c.P.Pos(fn.Pos()), fmt.Sprintf("needs %d bytes of room; %s", es.need, es.why), "the encoder's room test / written length is not derivable: "+err+" - for some buffer lengths it writes outside the buffer or reports a length it did not write")
+			}
+		}
+	}
 	type enc struct {
 		fn         string
 		kind, size int
